@@ -3,7 +3,8 @@ import ast
 import z3
 from . import sorts as T
 from .values import *  # noqa
-from .engine import PyRaise, ReturnSig, BreakSig, ContinueSig, PathPruned, mkexc, LOCK_CLASSES
+from .engine import (PyRaise, ReturnSig, BreakSig, ContinueSig, PathPruned, LemmaDone, mkexc,
+                     LOCK_CLASSES)
 from .lib import (Lib, TRUE, FALSE, fsize, sdir, ANCHOR_DIR, TMP_KIND, SHARD_KIND, MUTATING)
 
 py_int = z3.Function("py_int", T.S, T.I)        # int(s)
@@ -678,8 +679,8 @@ class FullLib(Lib):
                 raise Undecided("operation on an unregistered multiprocessing list")
             if c == "symdict" and name == "get":
                 k = self.need_str(it, args[0], "TypeError")
-                if it.ctx.branch(obj.f["has"](k.term)):
-                    return obj.f["get"](k.term)
+                if it.ctx.branch(obj.f["fn_has"](k.term)):
+                    return obj.f["fn_get"](k.term)
                 return args[1] if len(args) > 1 else NONE
             if c == "closing":
                 pass
@@ -760,6 +761,11 @@ class FullLib(Lib):
         st = ctx.st
         k = self.need_str(it, args[0], "TypeError").term
         if name == "append":
+            # monitor invariant: an identifier is in the locked list at most once, i.e. the
+            # wait loop before this append tested the very identifier that is appended
+            ctx.oblige("sync/acquired-identifier-is-free",
+                       z3.Select(st.own[cls], k) + z3.Select(st.env[cls], k) == 0,
+                       detail=f"class {cls}", props=("C07", "C12", "C16"))
             st.own[cls] = z3.Store(st.own[cls], k, z3.Select(st.own[cls], k) + 1)
             st.held.append((cls, k))
             ctx.event("acquire", lockcls=cls, key=k,
@@ -1021,32 +1027,37 @@ class LoopLib(FullLib):
                 for c in chunks:
                     it.assign(s.target, mk(c), e2)
                     it.exec_block(s.body, e2)
-                return e2, ctx.st, memo
+                return e2, ctx.st
             except PyRaise:
                 raise Undecided(f"fold body at line {s.lineno} may raise")
             finally:
                 ctx.st = saved
 
-        if not ctx.replaying() and not ctx.spec_mode:
-            x, y = ctx.fresh("chunkx", T.S), ctx.fresh("chunky", T.S)
-            saved_fm = ctx.__dict__.get("fault_mode")
-            ctx.fault_mode = None
-            try:
-                ea, sa, _ = run([x, y])
-                eb, sb, _ = run([z3.Concat(x, y)])
-                ec, sc, _ = run([T.EMPTY])
-            finally:
-                ctx.fault_mode = saved_fm
-            site = f"loop@{_loopkey(s)}"
-            try:
-                f1 = z3.And(sa.fs == sb.fs, _env_eq(it, ea, eb, s.target))
-                ctx.oblige(f"{ctx.callstack[-1] if ctx.callstack else it.top}/loop-fold/homomorphic",
-                           f1, detail=site)
-                f2 = z3.And(sc.fs == ctx.st.fs, _env_eq(it, ec, env, s.target))
-                ctx.oblige(f"{ctx.callstack[-1] if ctx.callstack else it.top}/loop-fold/unit", f2,
-                           detail=site)
-            except Mismatch as m:
-                raise Undecided(f"fold body changes the shape of its state: {m}")
+        who = ctx.callstack[-1] if ctx.callstack else it.top
+        site = f"loop@{_loopkey(s)}"
+        if not ctx.spec_mode:
+            k = ctx.fork(3)
+            if k in (1, 2):
+                saved_fm = ctx.__dict__.get("fault_mode")
+                ctx.fault_mode = None
+                try:
+                    if k == 1:
+                        x, y = ctx.fresh("chunkx", T.S), ctx.fresh("chunky", T.S)
+                        ea, sa = run([x, y])
+                        eb, sb = run([z3.Concat(x, y)])
+                        ctx.oblige(f"{who}/loop-fold/homomorphic",
+                                   z3.And(sa.fs == sb.fs, _env_eq(it, ea, eb, s.target)),
+                                   detail=site)
+                    else:
+                        ec, sc = run([T.EMPTY])
+                        ctx.oblige(f"{who}/loop-fold/unit",
+                                   z3.And(sc.fs == ctx.st.fs, _env_eq(it, ec, env, s.target)),
+                                   detail=site)
+                except Mismatch as m:
+                    raise Undecided(f"fold body changes the shape of its state: {m}")
+                finally:
+                    ctx.fault_mode = saved_fm
+                raise LemmaDone()
         it.assign(s.target, mk(total), env)
         it.exec_block(s.body, env)
         it.assign(s.target, VOpaque("last chunk"), env)
@@ -1214,3 +1225,115 @@ def _filter_lines(m, x, c):
             return z3.Store(m, t, z3.IntVal(0))
     xv = z3.Const("x!flt", T.S)
     return z3.Lambda([xv], z3.If(z3.substitute(c, (x, xv)), z3.Select(m, xv), z3.IntVal(0)))
+
+
+# ==============================================================================================
+# for-each over the files of one metadata directory
+# ==============================================================================================
+def meta_entry_state(fs_entry, d, done, x):
+    """State of location x after the entries `done` of metadata directory d were marked for
+    deletion (renamed to <name>_delete), starting from fs_entry."""
+    name = T.l_k2(x)
+    src = T.mkloc(z3.IntVal(T.K_META), d, name, z3.IntVal(0))
+    hit = z3.And(T.l_kind(x) == T.K_META, T.l_k1(x) == d, z3.Select(done, name),
+                 T.present(z3.Select(fs_entry, src)))
+    return z3.If(z3.And(hit, T.l_marks(x) == 0), T.Absent,
+                 z3.If(z3.And(hit, T.l_marks(x) == 1), z3.Select(fs_entry, src),
+                       z3.Select(fs_entry, x)))
+
+
+def meta_marked_fs(fs_entry, d, done):
+    x = z3.Const("x!me", T.Loc)
+    return z3.Lambda([x], meta_entry_state(fs_entry, d, done, x))
+
+
+class DirLoopLib(LoopLib):
+    def schema_for(self, it, s, itv, env):
+        if isinstance(itv, VSymSeq) and itv.what == "dirfiles":
+            self.dirfiles_loop(it, s, itv, env)
+            return True
+        return super().schema_for(it, s, itv, env)
+
+    def dirfiles_loop(self, it, s, seq, env):
+        """for path in <files of metadata directory d>: body
+        Rule: the body, run for an arbitrary not yet processed entry from the generalised state
+        `entries in done are marked`, must re-establish that state for done + {entry}, append
+        exactly the marked path to one list and restore the lock multisets."""
+        from .interp import Env
+        from .contract import clone
+        ctx = it.ctx
+        d, fs_entry, base = seq.info["d"], seq.info["fs"], seq.info["base"]
+        if s.orelse or _has_ctrl(s.body):
+            raise Undecided("break/continue/return in a directory loop")
+        who = ctx.callstack[-1] if ctx.callstack else it.top
+        # precondition of the rule: no deletion-marker leftovers in the directory, and the
+        # directory has not changed since it was listed
+        ctx.oblige(f"{who}/loop-foreach/listing-current", ctx.st.fs == fs_entry,
+                   props=("C11", "C05"))
+        n = ctx.fresh("entry", T.S)
+        # precondition of the rule (I3): the directory holds no deletion-marker leftovers
+        ctx.oblige_forall_loc(f"{who}/loop-foreach/no-marker-leftovers", lambda x: z3.Implies(
+            z3.And(T.l_kind(x) == T.K_META, T.l_k1(x) == d, T.l_marks(x) >= 1),
+            T.is_Absent(z3.Select(fs_entry, x))), props=("C11", "C05"))
+        done = ctx.fresh("done", z3.ArraySort(T.S, T.B))
+        e = T.mkloc(z3.IntVal(T.K_META), d, n, z3.IntVal(0))
+        lists_before = {k: len(v.items) for k, v in _all_lists(env)}
+        if not ctx.spec_mode and ctx.fork(2) == 1:
+            # lemma path: the body for one arbitrary entry, from the generalised state
+            ctx.st.fs = meta_marked_fs(fs_entry, d, done)
+            ctx.assume(z3.Not(z3.Select(done, n)))
+            ctx.assume(T.present(z3.Select(fs_entry, e)))
+            ctx.assume(T.ishex(n))
+            own0 = dict(ctx.st.own)
+            it.assign(s.target, VPath(A_METADATA, (("shard", d), ("str", n))), env)
+            try:
+                it.exec_block(s.body, env)
+                raised = None
+            except PyRaise as pr:
+                raised = pr.exc.cls
+            if raised is not None:
+                ctx.fail(f"{who}/loop-foreach/body-does-not-raise",
+                         f"the body may raise {raised} for a listed entry",
+                         props=("C11", "C12", "C05"))
+                raise LemmaDone()
+            want = meta_marked_fs(fs_entry, d, z3.Store(done, n, True))
+            x = ctx.skolem_loc()
+            ctx.oblige(f"{who}/loop-foreach/per-entry-effect",
+                       z3.Select(ctx.st.fs, x) == z3.Select(want, x), props=("C11", "C05"))
+            ctx.oblige(f"{who}/loop-foreach/locks-restored",
+                       z3.And(*[ctx.st.own[c] == own0[c] for c in own0]), props=("C08", "C12"))
+            grown = [(k, v) for k, v in _all_lists(env)
+                     if len(v.items) != lists_before.get(k, len(v.items))]
+            okl = (len(grown) == 1 and len(grown[0][1].items) == lists_before[grown[0][0]] + 1
+                   and isinstance(grown[0][1].items[-1], VPath)
+                   and grown[0][1].items[-1].marks == 1)
+            if okl:
+                got = self.path_loc(it, grown[0][1].items[-1])
+                ctx.oblige(f"{who}/loop-foreach/collects-marked-path", got == T.mark(e),
+                           props=("C11", "C05"))
+            else:
+                ctx.fail(f"{who}/loop-foreach/collects-marked-path",
+                         "the body does not append exactly the marked path to one list",
+                         props=("C11", "C05"))
+            raise LemmaDone()
+        # effect of the whole loop: every listed entry is marked
+        alln = z3.K(T.S, z3.BoolVal(True))
+        ctx.st.fs = meta_marked_fs(fs_entry, d, alln)
+        cands = [v for k, v in _all_lists(env)]
+        if len(cands) != 1:
+            raise Undecided("cannot identify the list that collects the marked paths")
+        target_list = cands[0]
+        target_list.items.append(VSymSeq("markedmeta", d=d, fs=fs_entry))
+        target_list.guards.append(TRUE)
+        it.assign(s.target, VOpaque("last entry"), env)
+
+
+def _all_lists(env):
+    out = []
+    e = env
+    while e is not None:
+        for k, v in e.vars.items():
+            if isinstance(v, VList) and v.kind == "list":
+                out.append((k, v))
+        e = e.parent
+    return out
